@@ -496,6 +496,9 @@ type InstrMetaStore struct {
 	amu     sync.Mutex
 	Applied map[int]bool
 	Updates []UpdateRec
+
+	// BeforeUpdate, if set, observes an Update's operations before they run.
+	BeforeUpdate func(writes []bs.WriteOperation, deletes []bs.DeleteOperation)
 }
 
 // UpdateRec is the content of one Update call.
@@ -513,6 +516,9 @@ func NewInstrMetaStore(inner bs.MetaStore, log *Log) *InstrMetaStore {
 }
 
 func (m *InstrMetaStore) Update(ctx context.Context, writes []bs.WriteOperation, deletes []bs.DeleteOperation) error {
+	if m.BeforeUpdate != nil {
+		m.BeforeUpdate(writes, deletes)
+	}
 	seq, act := m.Log.begin("Update", 0, "", int64(len(writes)), int64(len(deletes)))
 	rec := UpdateRec{Seq: seq, Start: m.Log.Clock.Now()}
 	for _, w := range writes {
